@@ -90,7 +90,7 @@ func collDump(c *mongokit.Collection) string {
 
 func isWriteCall(op string) bool {
 	switch op {
-	case "insertOne", "update", "replace", "delete", "fau", "far", "fad", "createIndex", "dropIndex", "dropIndexKey", "dropAllIndexes", "dropColl", "dropDb":
+	case "insertOne", "update", "replace", "delete", "fau", "far", "fad", "createIndex", "dropIndex", "dropIndexKey", "updateById", "dropAllIndexes", "dropColl", "dropDb":
 		return true
 	}
 	return false
